@@ -232,7 +232,7 @@ Attach(S, r, o, ob, id, now) ==
       w == InitWriter(S, r, o, ob2, now)
   IN  IF w[2].st = "R" /\ w[2].tl = 0 /\ w[2].w # 0 THEN LET c == Complete(w[1], w[2]) IN <<c[1], c[2], TRUE>>
       ELSE LET c == FromCache(S, w[1], o, w[2])
-               fl == Flush(S, c[1], o, c[2], 0, c[2].nslots + 2)
+               fl == IF Var(r) = "no-flush-at-attach" THEN <<c[1], c[2], TRUE>> ELSE Flush(S, c[1], o, c[2], 0, c[2].nslots + 2)
                e == IF fl[3] THEN <<fl[1], fl[2]>> ELSE Error(fl[1], fl[2], FALSE)
                d == FromCache(S, e[1], o, e[2])
            IN  <<d[1], d[2], TRUE>>
